@@ -83,7 +83,7 @@ def describe(m, node):
     if t == "Call":
         tgt = list(m.linked_ports(node.inp(n_in)))
         fname = getattr(m[tgt[0].node].op, "f_name", "?") if tgt else "?"
-        return ["other", "call:" + fname, str(n_out)], n_in, n_out, t
+        return ["call", fname, str(n_out)], n_in, n_out, t
     return ["other", t, str(n_out)], n_in, n_out, t
 
 
